@@ -304,6 +304,13 @@ func (c *Conn) CloseWAL() {
 	}
 }
 
+// WALExists reports whether the WAL file exists (fresh lookup).
+func (c *Conn) WALExists() bool {
+	c.N.Root.ForgetNodeByName(c.Name + "-wal")
+	_, err := c.lookup(c.Name + "-wal")
+	return err == nil
+}
+
 // RemoveWAL unlinks the WAL.
 func (c *Conn) RemoveWAL() error {
 	c.CloseWAL()
